@@ -32,6 +32,8 @@ THEOREMS = [
     'Nb.C10.wrapCheckFix_clean', 'Nb.C10.wrapCheckFix_level_monotone', 'Nb.C10.ctorChecked_fixed_point',
     'Nb.C10.second_run_levels_le', 'Nb.C10.logRaise_spec', 'Nb.C10.check_fix_failfast_counterexample',
     'Nb.C10.from_header_preserves', 'Nb.C10.from_header_fields_castable',
+    'Nb.C10.from_header_preserves_dtype_shape_zooms', 'Nb.C10.from_header_targets_ok',
+    'Nb.C10.copy_fresh_buffer', 'Nb.C10.copy_alias_counterexample',
     'Nb.C10.from_header_preserves_zooms', 'Nb.C10.from_header_pixdim_beyond_ndim_counterexample',
     'Nb.C10.layouts_wf', 'Nb.C10.layouts_declared_sizes', 'Nb.C10.layouts_names_distinct',
     'Nb.C10.dtcodes_consistent', 'Nb.C10.classes_consistent',
@@ -56,6 +58,17 @@ ASSUMPTIONS = [
     'case (raised battery index, logged reports, bytes after EVERY call incl. the ones that raised, check_only '
     'afterwards, checking constructor, diagnose tokens); the logging module itself is not modelled (a recording '
     'logger object is passed / installed as imageglobals.logger)',
+    'from_header setters: fromHeaderG? computes what set_data_dtype / set_data_shape / set_zooms write FROM THE SOURCE '
+    '(code looked up in the target make_dt_codes table, dim = [ndim, shape, 1..], pixdim = zooms of the copied pixdim, '
+    'entries after ndim = 1.0, magic of the target class; HeaderDataError for an unsupported dtype, a dimension that '
+    'does not fit the target dim item, a negative zoom); the fromhdr stream now READS datatype/bitpix/dim/magic (and the '
+    'exact pixdim bit patterns for same-width pairs) back from fromHeaderVals(.., g) and compares them with the real '
+    'conversion; the NIfTI-1 freesurfer shape hacks (dim[1:4] = (-1,1,1) / (27307,1,6)) are NOT modelled and not generated; '
+    "NumPy's float32<->float64 cast of pixdim stays a parameter (cross-width pairs compare provenance tags only)",
+    'copy() aliasing: World = buffers + objects viewing a buffer by id (two objects MAY share one); copyObj models copy() as '
+    'tobytes + ndarray(buffer).copy() = a NEW buffer; the world stream runs histories of copy / as_byteswapped / field '
+    'writes on several real objects and compares the bytes of EVERY object after the history with the model; the oracle '
+    'checks after every single step that only the written object changed',
     'floats are raw bit patterns; the checks use only sign/zero/NaN classes, abs (clears the sign bit, also of '
     'NaNs), the constant 1.0 and the exact dyadic value of vox_offset (FloatFmt.decode, validated against NumPy '
     'on the fdec stream); IEEE arithmetic itself is NumPy',
@@ -84,7 +97,9 @@ RULE = ('every endianness argument handed to the API (Klass(endianness=), Klass(
         'in sequence on one object with error levels from {-5,0,1,5,10,11,20,21,25,30,31,35,36,40,41,45,46,50,1000} or '
         'None (imageglobals.error_level set through imageglobals.ErrorLevel to a drawn value), logger passed or '
         'installed globally, on every defect subset / chkrand / setter-built header, plus pfix-levels = a header '
-        'with ALL applicable defects swept over every level; the header is inspected after calls that RAISED; fromhdr = conversions between all '
+        'with ALL applicable defects swept over every level; the header is inspected after calls that RAISED; world = '
+        'histories of 3-7 copy() / as_byteswapped() / field writes over up to 7 objects per class x byte order, bytes of '
+        'EVERY object compared after every step; fromhdr = conversions between all '
         'Analyze-family classes; dt/codec/fdec = table and codec spec validation. A case is non-trivial when the '
         'header differs from the class default; distinct by (class, endianness, op, sha1 of bytes).')
 
@@ -475,8 +490,23 @@ def mk_pfix(cls, e, glob, lvls, bs, stream, valid=False, lg='arg', nontrivial=Tr
     return Case(line, data, key, stream)
 
 
+def mk_world(cls, e, bs, script, stream='world'):
+    """Objects and buffers: `script` = list of ('c', i) copy / ('y', i) as_byteswapped / ('s', i, field, [patterns])."""
+    toks = []
+    for st in script:
+        if st[0] in 'cy':
+            toks.append(f'{st[0]}{st[1]}')
+        else:
+            toks.append(f's{st[1]}:{st[2]}:' + '/'.join(str(int(x)) for x in st[3]))
+    line = f'C10 world {cls} {e} {bs.hex()} {",".join(toks)}'
+    data = {'op': 'world', 'cls': cls, 'e': e, 'hex': bs.hex(), 'script': [list(st) for st in script], 'stream': stream}
+    return Case(line, data, ('world', cls, e, _sha(bs), ','.join(toks)), stream)
+
+
 def case_from_data(d):
     op = d['op']
+    if op == 'world':
+        return mk_world(d['cls'], d['e'], bytes.fromhex(d['hex']), [tuple(st) for st in d['script']], d.get('stream', 'world'))
     if op == 'pfix':
         bs = b'' if d['hex'] == '-' else bytes.fromhex(d['hex'])
         return mk_pfix(d['cls'], d['e'], d['glob'], d['lvls'], bs, d.get('stream', 'corpus'), d.get('valid', False),
@@ -564,6 +594,69 @@ def impl_chk(case):
             f'ro={canon_reports(ro)}')
 
 
+def _set_items(h, K, name, patterns):
+    """hdr[name] = the items given as raw bit patterns (in the header's own byte order)."""
+    ft = K.template_dtype[name]
+    base = ft.base
+    ut = np.dtype('u%d' % base.itemsize)
+    arr = np.array([int(p) for p in patterns], dtype=ut).view(base.newbyteorder('=')).reshape(ft.shape)
+    h[name] = arr
+
+
+def impl_world(case):
+    d = case.data
+    cls, e = d['cls'], d['e']
+    K = classes()[cls]
+    objs = [make_hdr(cls, e, bytes.fromhex(d['hex']))]
+    trace = [[o.binaryblock for o in objs]]
+    for st in d['script']:
+        if st[0] == 'c':
+            objs.append(objs[st[1]].copy())
+        elif st[0] == 'y':
+            objs.append(objs[st[1]].as_byteswapped())
+        else:
+            _set_items(objs[st[1]], K, st[2], st[3])
+        trace.append([o.binaryblock for o in objs])
+    case.extra = {'objs': objs, 'trace': trace}
+    return ';'.join(f'{o.endianness}:{o.binaryblock.hex()}' for o in objs)
+
+
+def oracle_world(case, out):
+    """Copies (and byte-swapped copies) are independent objects: a write through one object changes that
+    object's field and NOTHING else — no other field, no other object."""
+    d = case.data
+    K = classes()[d['cls']]
+    if out.startswith('ERR'):
+        return f'{d["cls"]}: object history raised {out}'
+    ex = case.extra
+    objs, trace = ex['objs'], ex['trace']
+    ends = [o.endianness for o in objs]
+    lay = {f[0]: f for f in layout_of(K)}
+    for t, st in enumerate(d['script']):
+        before, after = trace[t], trace[t + 1]
+        if st[0] in 'cy':
+            i = st[1]
+            if after[:-1] != before:
+                return f'{d["cls"]}: step {t} ({st[0]}{i}) changed an existing object'
+            want = before[i] if st[0] == 'c' else own_swap(before[i], K)
+            if after[-1] != want:
+                return f'{d["cls"]}: step {t}: the {"copy" if st[0] == "c" else "byte-swapped copy"} of object {i} has different bytes'
+            if objs[len(after) - 1] is objs[i]:
+                return f'{d["cls"]}: step {t}: {st[0]}{i} returned the same object'
+        else:
+            i, name, pats = st[1], st[2], st[3]
+            for k in range(len(before)):
+                if k != i and after[k] != before[k]:
+                    return (f'{d["cls"]}: writing field {name} of object {i} changed object {k} '
+                            f'(objects are not independent; script {d["script"][:t + 1]})')
+            n, off, isz, cnt, kind = lay[name]
+            order = 'little' if ends[i] == '<' else 'big'
+            want = before[i][:off] + b''.join(int(p).to_bytes(isz, order) for p in pats) + before[i][off + isz * cnt:]
+            if after[i] != want:
+                return f'{d["cls"]}: writing field {name} of object {i} did not produce the expected bytes'
+    return None
+
+
 class _Rec:
     """Recording logger: what `Report.log_raise` hands to `logger.log`."""
 
@@ -612,8 +705,10 @@ def impl_pfix(case):
     ex = {'bb0': bb0, 'K': K, 'steps': steps}
     case.extra = ex
     old_logger = ig.logger
+    ex['level_before'] = ig.error_level
     try:
         with ig.ErrorLevel(d['glob']):
+            ex['level_inside'] = ig.error_level
             for lvl in d['lvls']:
                 pre = [(int(r.problem_level), r.problem_msg) for r in br.check_only(h)]
                 rec = _Rec()
@@ -648,6 +743,7 @@ def impl_pfix(case):
         ig.logger = old_logger
         return 'ERR:OverflowError'
     ex['diag'] = [ln for ln in diag.split('\n') if ln]
+    ex['level_after'] = ig.error_level
     bb1 = steps[0]['bb']
     ss = ';'.join(('R%d' % (len(st['recs']) - 1) if st['raised'] is not None else 'ok') + '/' + canon_logged(st['recs']) +
                   '/%d' % int(st['bb'] == bb1) for st in steps)
@@ -707,6 +803,8 @@ def impl(case):
         return impl_chk(case)
     if op == 'pfix':
         return impl_pfix(case)
+    if op == 'world':
+        return impl_world(case)
     if op == 'fromhdr':
         return impl_fromhdr(case)
     return impl_simple(case)
@@ -770,7 +868,10 @@ def fromhdr_observable(S, D, src, dst):
     pix = ''.join('c' if sp.view(ut)[i] == dp.view(ut)[i] else ('1' if dp[i] == 1 else 'x') for i in range(8))
     magic = (np.asarray(dst['magic']).tobytes().rstrip(b'\x00').hex() or '-') if 'magic' in dd.names else '-'
     dim = ','.join(str(int(x)) for x in np.asarray(dst['dim']))
-    return (f'dt={int(dst["datatype"])}/{int(dst["bitpix"])} dim=[{dim}] pix={pix} magic={magic} '
+    pixv = '-'
+    if sd['pixdim'].base.itemsize == dd['pixdim'].base.itemsize:     # same float width: exact bit patterns
+        pixv = '[' + ','.join(str(int(x)) for x in dp.view(ut)) + ']'
+    return (f'dt={int(dst["datatype"])}/{int(dst["bitpix"])} dim=[{dim}] pix={pix} pixv={pixv} magic={magic} '
             f'prov={"".join(prov)}')
 
 
@@ -1162,6 +1263,43 @@ def cases(rng, tier):
                         put_item(b, lay, e, fn, k, rand_pattern(rng, isz, kind))
             out.append(C('chk', cls, e, bytes(b), 'chkrand'))
             out.append(P(cls, e, bytes(b), 'pfix-rand'))
+    # ---- objects and buffers: histories of copy / as_byteswapped / field writes on several objects
+    n_world = {'quick': 6, 'thorough': 60, 'search': 12}[tier]
+    for cls in K:
+        numf = [f for f in layout_of(K[cls]) if f[4] != 'S']
+        for e in (('>',) if cls == 'mgh' else ('<', '>')):
+            for _ in range(n_world):
+                bb = fill_free(rng, K[cls], build_header(rng, cls, e).binaryblock, p=0.3)
+                script, nobj = [], 1
+                for _ in range(rng.randrange(3, 8)):
+                    r = rng.random()
+                    if r < 0.3 or nobj == 1:
+                        script.append(('c', rng.randrange(nobj)))
+                        nobj += 1
+                    elif r < 0.45 and cls != 'mgh':
+                        script.append(('y', rng.randrange(nobj)))
+                        nobj += 1
+                    else:
+                        f = rng.choice(numf)
+                        script.append(('s', rng.randrange(nobj), f[0], [rng.getrandbits(8 * f[2]) for _ in range(f[3])]))
+                out.append(mk_world(cls, '>' if cls == 'mgh' else spell(rng, e), bb, script))
+    # ---- from_header: dimensions that do not fit the target's dim item, negative / odd pixdims
+    for cls in ANALYZE_FAMILY:
+        for e in '<>':
+            for _ in range({'quick': 3, 'thorough': 30, 'search': 6}[tier]):
+                h = build_header(rng, cls, e)
+                nd = int(h['dim'][0])
+                r = rng.random()
+                if cls.startswith('nifti2') and nd >= 2 and r < 0.5:
+                    shp = list(h.get_data_shape())
+                    shp[rng.randrange(1, nd)] = rng.choice([32767, 32768, 40000, 70000, 2 ** 31])
+                    h.set_data_shape(shp)
+                elif nd >= 1:
+                    k = rng.randrange(1, nd + 1)      # inside the zooms (entries after ndim: see the open finding)
+                    h['pixdim'][k] = rng.choice([-1.0, -2.5, -0.0, 0.0, np.nan, np.inf])
+                for dst in ANALYZE_FAMILY:
+                    if dst != cls:
+                        out.append(mk_fromhdr(cls, dst, e, h.binaryblock, check=False))
     # ---- every error level against headers carrying ALL (and all-but-one of) the applicable defects
     for cls in K:
         D = defect_table(cls, K[cls])
@@ -1399,6 +1537,9 @@ def oracle_pfix(case, out):
     ex = case.extra
     names = [f.__name__ for f in K._get_checks()]
     steps = ex['steps']
+    if ex['level_inside'] != d['glob'] or ex['level_after'] != ex['level_before']:
+        return (f'imageglobals.ErrorLevel({d["glob"]}): level inside {ex["level_inside"]}, before {ex["level_before"]}, '
+                f'after {ex["level_after"]} (raised inside: {any(st["raised"] is not None for st in steps)})')
     bb1 = steps[0]['bb']
     how = lambda st: 'raised' if st['raised'] is not None else 'completed'
     for i, st in enumerate(steps):
@@ -1479,6 +1620,13 @@ def oracle_fromhdr(case, out):
             return None
         if d['check']:
             return None   # check=True may legitimately raise on a level>=40 problem carried over (e.g. single-file offset)
+        if type(src) is not D:
+            ddt = D.template_dtype['dim'].base
+            shp = src.get_data_shape()
+            if any(not (np.iinfo(ddt).min <= int(v) <= np.iinfo(ddt).max) for v in shp):
+                return None   # documented: shape does not fit in the target's dim datatype
+            if int(src['dim'][0]) and any(float(z) < 0 for z in src.get_zooms()):
+                return None   # documented: set_zooms refuses negative zooms
         return f'from_header({d["cls"]}->{d["dst"]}, check=False) raised {ex["exc"]!r} for supported dtype {sdt}'
     if out.startswith('ERR'):
         return f'from_header({d["cls"]}->{d["dst"]}) raised {out}'
@@ -1493,7 +1641,7 @@ def oracle_fromhdr(case, out):
         return f'from_header({d["cls"]}->{d["dst"]}): shape {src.get_data_shape()} became {dst.get_data_shape()}'
     zs, zd = np.array(src.get_zooms(), dtype=np.float64), np.array(dst.get_zooms(), dtype=np.float64)
     f4 = 'f4' in (S.template_dtype['pixdim'].base.str[1:], D.template_dtype['pixdim'].base.str[1:])
-    if zs.shape != zd.shape or not np.array_equal(zs.astype('f4') if f4 else zs, zd.astype('f4') if f4 else zd):
+    if zs.shape != zd.shape or not np.array_equal(zs.astype('f4') if f4 else zs, zd.astype('f4') if f4 else zd, equal_nan=True):
         return f'from_header({d["cls"]}->{d["dst"]}): zooms {tuple(zs)} became {tuple(zd)}'
     if 'magic' in D.template_dtype.names and type(src) is not D:
         wantm = D.single_magic if D.is_single else D.pair_magic
@@ -1525,6 +1673,8 @@ def oracle(case, out):
         return oracle_chk(case, out)
     if op == 'pfix':
         return oracle_pfix(case, out)
+    if op == 'world':
+        return oracle_world(case, out)
     if op == 'fromhdr':
         return oracle_fromhdr(case, out)
     if op == 'dt':
@@ -1563,6 +1713,8 @@ def signature(case, what):
             if k in w:
                 return f'chk:{d["cls"]}:{t}'
         return f'chk:{d["cls"]}:other'
+    if op == 'world':
+        return f'world:{d["cls"]}:' + ('not-independent' if 'changed' in w else 'other')
     if op == 'pfix':
         for k, t in (('idempotent', 'not-idempotent'), ('depends on the error level', 'level-dependent-repair'),
                      ('altered', 'noop'), ('still reports', 'not-repaired'), ('public setters', 'valid-flagged'),
